@@ -229,7 +229,8 @@ func buildPlans(tier string) []*plan {
 		[2]int{fCount, fFind}, [2]int{fFind, fCount}, [2]int{fCount, fHandle},
 		[2]int{fFirst, fFirst}, [2]int{fFirst, fHandle},
 		[2]int{fDelete, fDelete}, [2]int{fHandle, fDelete},
-		[2]int{fPluck, fHandle}, [2]int{fFirstOrInit, fHandle}, [2]int{fSave, fHandle}, [2]int{fTake, fScan}, [2]int{fLast, fHandle}))
+		[2]int{fPluck, fHandle}, [2]int{fFirstOrInit, fHandle}, [2]int{fSave, fHandle}, [2]int{fTake, fScan}, [2]int{fLast, fHandle},
+		[2]int{fFindInBatches, fHandle}, [2]int{fFirstOrCreate, fHandle}, [2]int{fCreateInBatches, fAssocFind}, [2]int{fAssocCount, fHandle}))
 	all := dedupPairs(append(pairs(fFind, fFirst, fCount, fUpdate, fDelete, fCreate, fHandle), core...))
 	few := [][2]int{{fHandle, fHandle}, {fFind, fUpdate}, {fUpdate, fCreate}, {fCount, fFirst}, {fDelete, fFind}, {fCreate, fHandle}}
 
@@ -244,6 +245,9 @@ func buildPlans(tier string) []*plan {
 		}
 		big := len(quickV) > 2 // WHERE
 		fins := core[:21]
+		if !thorough {
+			fins = core[:15]
+		}
 		if big && !thorough {
 			fins = core[:9]
 		}
@@ -265,6 +269,10 @@ func buildPlans(tier string) []*plan {
 		}
 		plans = append(plans, &plan{Name: "P1-" + k, Bases: bases, Makers: []int{mkSession}, ForksA: forks, ForksB: forks, Fins: fins, Scheds: baseScheds(), Modes: both})
 		// the other two handle makers with few finisher pairs
+		mscheds := baseScheds()
+		if !thorough {
+			mscheds = [][]event{sABab, sAaBb}
+		}
 		mf := few[:2]
 		if big && !thorough {
 			mf = few[:1]
@@ -272,7 +280,7 @@ func buildPlans(tier string) []*plan {
 		if thorough {
 			mf = few[:4]
 		}
-		plans = append(plans, &plan{Name: "P1m-" + k, Bases: deepBases, Makers: []int{mkContext, mkDebug}, ForksA: deepForks, ForksB: deepForks, Fins: mf, Scheds: baseScheds(), Modes: both})
+		plans = append(plans, &plan{Name: "P1m-" + k, Bases: deepBases, Makers: []int{mkContext, mkDebug}, ForksA: deepForks, ForksB: deepForks, Fins: mf, Scheds: mscheds, Modes: both})
 		// the handle itself executed in between (without the dense probes, which execute it at every gap anyway)
 		hf := []int{fFind}
 		hfins := few[:2]
@@ -323,12 +331,27 @@ func buildPlans(tier string) []*plan {
 			}
 			scheds := [][]event{sAaBb, sABab}
 			plans = append(plans, &plan{Name: "PH-" + k, Bases: bases, Makers: []int{mkSession}, ForksA: fa, ForksB: fb, Fins: fins, Scheds: withHandleExec(scheds, dryHandleFins), Modes: both, PerBase: true})
-			plans = append(plans, &plan{Name: "PHm-" + k, Bases: bases, Makers: []int{mkContext, mkDebug}, ForksA: fa, ForksB: fb, Fins: fins[:1], Scheds: withHandleExec(scheds[:1], dryHandleFins), Modes: []bool{true}, PerBase: true})
+			msc := withHandleExec(scheds[:1], dryHandleFins)
+			if !thorough {
+				// the handle executed right after it was made, or after the first chain was executed
+				var sel [][]event
+				for _, sq := range msc {
+					if sq[0].Kind == evExecH || sq[2].Kind == evExecH || sq[2].Kind == evExecHA {
+						sel = append(sel, sq)
+					}
+				}
+				msc = sel
+			}
+			plans = append(plans, &plan{Name: "PHm-" + k, Bases: bases, Makers: []int{mkContext, mkDebug}, ForksA: fa, ForksB: fb, Fins: fins[:1], Scheds: msc, Modes: []bool{true}, PerBase: true})
 			if k == "RETURNING" || k == "ONCONFLICT" || k == "LOCKING" {
 				continue
 			}
 			rfins := [][2]int{{fHandle, fFind}}
-			plans = append(plans, &plan{Name: "PHR-" + k, Real: true, Bases: bases, Makers: []int{mkSession, mkBegin}, ForksA: fa, ForksB: fb[:1], Fins: rfins, Scheds: withHandleExec(scheds[:1], realHandleFins), Modes: both, PerBase: true})
+			phrModes := []bool{true}
+			if thorough {
+				phrModes = both
+			}
+			plans = append(plans, &plan{Name: "PHR-" + k, Real: true, Bases: bases, Makers: []int{mkSession, mkBegin}, ForksA: fa, ForksB: fb[:1], Fins: rfins, Scheds: withHandleExec(scheds[:1], realHandleFins), Modes: phrModes, PerBase: true})
 		}
 		// two-call bases over the whole quick alphabet (any two kinds), the handle executed right after it was made
 		// and once more after a first chain was executed
@@ -339,6 +362,50 @@ func buildPlans(tier string) []*plan {
 			sc = append(sc, []event{{Kind: evBuildA}, {Kind: evExecA}, {Kind: evExecH, Fin: f}, {Kind: evBuildB}, {Kind: evExecB}})
 		}
 		plans = append(plans, &plan{Name: "PH2-any-two-kinds", Bases: seqs(q, 2, 2), Makers: []int{mkSession}, ForksA: [][]int{{where}}, ForksB: [][]int{{limit}}, Fins: [][2]int{{fFind, fUpdate}}, Scheds: sc, Modes: []bool{true}, PerBase: true})
+	}
+
+	// PI: chain calls with an argument they cannot translate (they record an error): built on a fork (executed,
+	// turned into a handle, or abandoned) or as part of the base; the error must stay on that chain.
+	{
+		var inv []int
+		for i, o := range ops {
+			if o.Tier == tInvalid {
+				inv = append(inv, i)
+			}
+		}
+		q := opsUpTo(tQuick)
+		where := opByLabel[`Where("name = ?","w")`]
+		limit := opByLabel[`Limit(5)`]
+		abandonA := []event{{Kind: evBuildA}, {Kind: evBuildB}, {Kind: evExecB}}
+		sc := append(baseScheds(), abandonA)
+		bases := seqs(q, 0, 1)
+		if thorough {
+			bases = seqs(q, 0, 2)
+		}
+		fb := [][]int{{where}, {limit}}
+		fins := [][2]int{{fFind, fFind}, {fHandle, fUpdate}}
+		plans = append(plans, &plan{Name: "PI-invalid-fork", Bases: bases, Makers: []int{mkSession, mkContext, mkDebug}, ForksA: seqs(inv, 1, 1), ForksB: fb, Fins: fins, Scheds: sc, Modes: both, PerBase: true})
+		plans = append(plans, &plan{Name: "PI-invalid-fork-open", Bases: seqs(nil, 0, 0), Makers: []int{mkOpen}, ForksA: seqs(inv, 1, 1), ForksB: fb, Fins: fins, Scheds: sc, Modes: both, PerBase: true})
+		plans = append(plans, &plan{Name: "PI-invalid-base", Bases: seqs(inv, 1, 1), Makers: []int{mkSession, mkContext, mkDebug}, ForksA: seqs(q, 1, 1), ForksB: fb, Fins: fins[:1], Scheds: sc[:1], Modes: both, PerBase: true})
+		plans = append(plans, &plan{Name: "PIR-invalid-fork", Real: true, Bases: seqs(nil, 0, 0), Makers: []int{mkSession, mkBegin}, ForksA: seqs(inv, 1, 1), ForksB: fb, Fins: [][2]int{{fFind, fFind}, {fHandle, fCount}}, Scheds: sc, Modes: both, PerBase: true})
+	}
+
+	// PHR2: on SQLite, every finisher executed on a handle whose base mixes two kinds (Count with Group/Distinct/
+	// Select, FindInBatches with Limit/Offset/Order, ...)
+	{
+		var al []int
+		for _, l := range []string{`Order("name")`, `Limit(5)`, `Offset(3)`, `Group("name")`, `Distinct()`, `Select([]string{"name"})`, `Where("name = ?","w")`, `Joins("Company")`, `Preload("Company")`, `Model(&User{})`} {
+			al = append(al, opByLabel[l])
+		}
+		if thorough {
+			al = append(al, opByLabel[`Model(&User{ID:4})`], opByLabel[`Having("count(*) > ?",1)`], opByLabel[`Unscoped()`], opByLabel[`Select("age","name")`])
+		}
+		var sc [][]event
+		for _, f := range realHandleFins {
+			sc = append(sc, []event{{Kind: evExecH, Fin: f}, {Kind: evBuildA}, {Kind: evExecA}, {Kind: evBuildB}, {Kind: evExecB}})
+			sc = append(sc, []event{{Kind: evBuildA}, {Kind: evBuildB}, {Kind: evExecH, Fin: f}, {Kind: evExecA}, {Kind: evExecB}})
+		}
+		plans = append(plans, &plan{Name: "PHR2-two-kinds", Real: true, Bases: seqs(al, 2, 2), Makers: []int{mkSession}, ForksA: [][]int{{opByLabel[`Where("name = ?","w")`]}}, ForksB: [][]int{{opByLabel[`Offset(3)`]}}, Fins: [][2]int{{fFind, fFind}}, Scheds: sc, Modes: []bool{false}, PerBase: true})
 	}
 
 	// P2: cross kind — base of <=1 call, forks of one call, any kinds
@@ -370,6 +437,10 @@ func buildPlans(tier string) []*plan {
 	for i, k1 := range kinds {
 		for _, k2 := range kinds[i+1:] {
 			rounds := 1
+			p3scheds := [][]event{sABab, sAaBb}
+			if thorough {
+				p3scheds = baseScheds()
+			}
 			p3fins := [][2]int{{fHandle, fFind}, {fUpdate, fHandle}}
 			if thorough {
 				rounds = 2
@@ -408,7 +479,7 @@ func buildPlans(tier string) []*plan {
 						fk = append(fk, f)
 					}
 				}
-				plans = append(plans, &plan{Name: fmt.Sprintf("P3-%s+%s-%d", k1, k2, r), Bases: bases, Makers: []int{mkSession}, ForksA: fk, ForksB: fk, Fins: p3fins, Scheds: baseScheds(), Modes: both})
+				plans = append(plans, &plan{Name: fmt.Sprintf("P3-%s+%s-%d", k1, k2, r), Bases: bases, Makers: []int{mkSession}, ForksA: fk, ForksB: fk, Fins: p3fins, Scheds: p3scheds, Modes: both})
 			}
 		}
 	}
@@ -437,7 +508,7 @@ func buildPlans(tier string) []*plan {
 	}
 
 	// PR: real executions on SQLite (Find / Count / Count-then-Find / handle), makers Session and Begin
-	realFins := [][2]int{{fFind, fFind}, {fCountFind, fFind}, {fFind, fCountFind}, {fHandle, fCount}, {fCount, fHandle}, {fCountFind, fHandle}, {fFirst, fCountFind}, {fCount, fCount}}
+	realFins := [][2]int{{fFind, fFind}, {fCountFind, fFind}, {fFindInBatches, fFind}, {fHandle, fCount}, {fFind, fCountFind}, {fFind, fFindInBatches}, {fCount, fHandle}, {fCountFind, fHandle}, {fFirst, fCountFind}, {fCount, fCount}, {fFindInBatches, fHandle}, {fTransaction, fAssocFind}, {fRows, fRow}}
 	for _, k := range kinds {
 		if k == "RETURNING" || k == "ONCONFLICT" || k == "LOCKING" || k == "SESSION" {
 			continue // not rendered by queries on SQLite
@@ -787,7 +858,7 @@ func main() {
 		"traces_validated_against_impl":     total.transitions,
 		"evaluations":                       total.histories,
 		"distinct_nontrivial":               setNontrivial.len(),
-		"rule":                              "histories = base chain (<=3 calls) -> handle maker (Session | WithContext | Debug | Begin on SQLite | the gorm.Open handle itself) -> two forks (<=2 calls each) x finisher pair (Find First Take Last Count Pluck Scan FirstOrInit Update Delete Create Save | fork turned into a handle and probed | on SQLite: Find Count First, Count-then-Find on one chain) x schedule {aBuild bBuild aExec bExec | aBuild bBuild bExec aExec | aBuild aExec bBuild bExec} (forks range over ordered pairs, so the mirrored schedules are included) x probe mode {after every transition | only at the end} [+ one execution of the handle itself at a gap]. Blocks: P0 forks from the Open handle; P1 base and both forks from the variants of one clause kind (P1m other handle makers, P1h handle executed in between); PH/PHm/PHR/PH2 every finisher of the alphabet (Find First Take Last Count Pluck Scan FirstOrInit Update Delete Create Save; on SQLite the read-only ones + Rows) executed directly ON a live reusable handle — the base handle at every gap of the schedule, the handle made from fork A once it exists — with the handle's base chain (1-2 calls, thorough 1-3) ranging over every clause kind and, in PH2, over every 2-call chain of the quick alphabet, followed by forks and probes of the same handle; P2 one call each from any kinds; P3 two kinds mixed; P4 (thorough) every 3-call base over the quick alphabet with one-call forks from the kinds in the base; PR the same on SQLite with real queries. distinct_nontrivial = distinct (base, maker, fork, finisher) specs with a non-empty fork whose output was compared with its isolated replay on a fresh gorm.Open; states = distinct handle-tree specs (base+maker; per fork: not built / built / finished / handle + its calls + finisher); transitions = handle made, fork built, fork executed, handle executed — each executed on the implementation and followed by the oracle",
+		"rule":                              "histories = base chain (<=3 calls) -> handle maker (Session | WithContext | Debug | Begin on SQLite | the gorm.Open handle itself) -> two forks (<=2 calls each) x finisher pair (Find First Take Last Count Pluck Scan FirstOrInit Update Delete Create Save | fork turned into a handle and probed | on SQLite: Find Count First, Count-then-Find on one chain) x schedule {aBuild bBuild aExec bExec | aBuild bBuild bExec aExec | aBuild aExec bBuild bExec} (forks range over ordered pairs, so the mirrored schedules are included) x probe mode {after every transition | only at the end} [+ one execution of the handle itself at a gap]. Blocks: P0 forks from the Open handle; P1 base and both forks from the variants of one clause kind (P1m other handle makers, P1h handle executed in between); PH/PHm/PHR/PH2 every finisher of the alphabet (Find First Take Last Count Pluck Scan FirstOrInit FindInBatches FirstOrCreate CreateInBatches Association.Find/Count Update Delete Create Save; on SQLite the read-only ones + Rows Row Transaction(fn)) executed directly ON a live reusable handle — the base handle at every gap of the schedule, the handle made from fork A once it exists — with the handle's base chain (1-2 calls, thorough 1-3) ranging over every clause kind and, in PH2, over every 2-call chain of the quick alphabet, followed by forks and probes of the same handle (PHR2: on SQLite with 2-kind bases); PI/PIR chain calls with an argument they cannot translate (typed nil pointer, unsupported type, unknown relation, failing scope/expression — the call records an error) built on a fork that is executed, turned into a handle or abandoned, or as the base; a panic inside gorm is an observation compared with the isolated replay; P2 one call each from any kinds; P3 two kinds mixed; P4 (thorough) every 3-call base over the quick alphabet with one-call forks from the kinds in the base; PR the same on SQLite with real queries. distinct_nontrivial = distinct (base, maker, fork, finisher) specs with a non-empty fork whose output was compared with its isolated replay on a fresh gorm.Open; states = distinct handle-tree specs (base+maker; per fork: not built / built / finished / handle + its calls + finisher); transitions = handle made, fork built, fork executed, handle executed — each executed on the implementation and followed by the oracle",
 		"samples":                           samples.List(),
 		"exhaustive":                        exhaustive,
 		"violating_histories_by_input_tags": classCounts,
